@@ -7,8 +7,9 @@
 (*           units and result vertices are reported rounded to the nearest working unit)       *)
 (*   Case  - one call RectClipLines(rect, {L}): the open polyline L, the pieces Q returned, and *)
 (*           per piece vertex [is an input vertex, amount outside the real rectangle in x, y]   *)
-(*   Batch - the preceding k polylines clipped by ONE call, and whether the result equals the   *)
-(*           concatenation of the k separate results (compared natively)                        *)
+(*   Batch - several of the preceding paths (polylines and one-vertex / empty filler paths)    *)
+(*           clipped by ONE call on an object that may have executed before, and whether the    *)
+(*           result equals the concatenation of the separate results (compared natively)        *)
 (* Clauses (all from the statement of C09; tolerances rounded outward):                         *)
 (*   piece_off_polyline   a piece vertex farther than 1.5 units from every segment of L         *)
 (*   piece_outside_rect   a piece vertex more than 1 unit outside the rectangle                 *)
@@ -165,27 +166,31 @@ TCase ==
                 /\ Chk(NotLong(a, Ev.Q), "C09", "length_long", <<Ev.id, RLenLo(Ev.Q), a.eHiMax, a.cross>>)
 
 (* ------------------------------------------------------------------ Batch *)
-(* all ways to cut 1..n into K consecutive (possibly empty) groups: sequences of K+1 cut positions 0 = c0 <= .. <= cK = n *)
-RECURSIVE SplitOK(_, _, _, _)
-SplitOK(Q, vm, j, from) ==       \* pieces from+1.. can be attributed to polylines j..K
-  IF j > Len(hist) THEN from = Len(Q)
+(* one multi-path Execute on an object that may have executed before: Ev.idx lists, in call order, which Cases since the last   *)
+(* reset were passed (polylines and filler paths: one-vertex paths in / on / outside the rectangle, empty paths).  The pieces   *)
+(* must be attributable IN ORDER to those paths: cut the piece list into Len(idx) consecutive (possibly empty) groups, group j  *)
+(* satisfying every clause for path idx[j] (a path with fewer than 2 vertices has no segment, so its group must be empty).      *)
+RECURSIVE SplitOK(_, _, _, _, _)
+SplitOK(Q, vm, idx, j, from) ==       \* pieces from+1.. can be attributed to paths idx[j], idx[j+1], ..
+  IF j > Len(idx) THEN from = Len(Q)
   ELSE \E to \in from..Len(Q) :
-         /\ AllOK(hist[j], SubSeq(Q, from + 1, to), SubSeq(vm, from + 1, to))
-         /\ SplitOK(Q, vm, j + 1, to)
+         /\ AllOK(hist[idx[j]], SubSeq(Q, from + 1, to), SubSeq(vm, from + 1, to))
+         /\ SplitOK(Q, vm, idx, j + 1, to)
 
 TBatch ==
   /\ Ev.e = "Batch"
   /\ UNCHANGED fam
-  /\ hist' = <<>>
+  /\ hist' = IF Ev.last = 1 THEN <<>> ELSE hist
   /\ stat' = [stat EXCEPT ![7] = @ + 1]
-  /\ Chk(Ev.k = Len(hist), "HARNESS", "batch_size", Ev.k)
-  /\ (IF PathsOK(Ev.Q) THEN TRUE ELSE Chk(InRect1(Ev.vm), "C09", "piece_outside_rect", l))
-  /\ (Ev.k = Len(hist) /\ PathsOK(Ev.Q)) =>
-       \* equal to the concatenation of the separately judged results: nothing more to decide; otherwise the
-       \* pieces must still be attributable, in input order, to the k polylines
-       IF Ev.eqcat = 1 THEN TRUE
-       ELSE /\ Note("EQCAT0", l)
-            /\ Chk(SplitOK(Ev.Q, Ev.vm, 1, 0), "C09", "batch_pieces_not_attributable", l)
+  /\ LET idxOK == \A j \in 1..Len(Ev.idx) : Ev.idx[j] \in 1..Len(hist)
+     IN /\ Chk(idxOK, "HARNESS", "batch_index", l)
+        /\ (IF PathsOK(Ev.Q) THEN TRUE ELSE Chk(InRect1(Ev.vm), "C09", "piece_outside_rect", l))
+        /\ (idxOK /\ PathsOK(Ev.Q)) =>
+             \* equal to the concatenation of the separately judged results: nothing more to decide; otherwise the
+             \* pieces must still be attributable, in call order, to the paths passed
+             IF Ev.eqcat = 1 THEN TRUE
+             ELSE /\ Note("EQCAT0", l)
+                  /\ Chk(SplitOK(Ev.Q, Ev.vm, Ev.idx, 1, 0), "C09", "batch_pieces_not_attributable", l)
 
 Init == l = 1 /\ fam = <<>> /\ hist = <<>> /\ stat = <<0, 0, 0, 0, 0, 0, 0>>
 Next == /\ l <= Len(Tr)
